@@ -4,6 +4,7 @@ import J5V.Compile.Entity
 import J5V.Generated.CompileconstsFacts
 import J5V.Compile.EntityProofs
 import J5V.Compile.EntitySvc
+import J5V.Compile.Link
 import J5V.Compile.PathProofs
 /-!
 # C17 — entity declarations expand to a complete, mutually consistent API
@@ -80,7 +81,9 @@ def itemLabel : Item → String × List Str
   | .topicFile ts => ("topics", ts.map (·.name))
   | .abort => ("abort", [])
 
-/-- an entity whose status filters name declared statuses and whose summaries are distinct -/
+/-- an entity whose status filters name declared statuses and whose summaries are distinct (what the
+walker demands). An entity WITHOUT events is valid in this sense — the compiler accepts it; see
+`C17_zero_events_counterexample` for what fails downstream -/
 def ValidEntity (e : Entity) : Prop := filtersOk e = true ∧ summariesDistinct e.summaries = true
 
 /-- **Components.** A valid entity expands, in this order, to: Keys, Data (objects), Status (enum),
@@ -517,6 +520,81 @@ theorem C17_topic_message_skeleton (c : Ctx) (e : Entity) (s : Summary)
     rw [List.zipIdx_eq_map_add (l := s.props) (i := 1)]
     simp [List.map_map, Function.comp, Nat.add_assoc]
     intro a b _; omega
+
+/-- **State and Event hold the FLATTENED keys, on the skeleton.** When the State (Event) object converts
+without error, the second field of its message is `keys = 2`, message-typed, required, carrying the
+`object` extension with `flatten` set. -/
+theorem C17_flattened_keys_skeleton (c : Ctx) (e : Entity) :
+    ((convDecl c [] false [] (stateObject e)).errs = 0 → ∀ f,
+      (declMsgOf c [] false [] (stateObject e)).fields[1]? = some f →
+      f.number = 2 ∧ f.name = b!"keys" ∧ f.type = .message ∧ f.ext = b!"object+flatten" ∧ f.req = true) ∧
+    ((convDecl c [] false [] (eventObject e)).errs = 0 → ∀ f,
+      (declMsgOf c [] false [] (eventObject e)).fields[1]? = some f →
+      f.number = 2 ∧ f.name = b!"keys" ∧ f.type = .message ∧ f.ext = b!"object+flatten" ∧ f.req = true) := by
+  have hk : toSnake b!"keys" = b!"keys" := by decide
+  constructor
+  · intro h f hf
+    have herr : (bProps c ([] ++ [componentName e b!"State"]) false 1 ([] ++ (stateObject e).props)).eff.errs = 0 := by
+      have := h
+      simp only [stateObject] at this
+      rw [convDecl_errs] at this
+      simp only [stateObject, ObjDecl.props]
+      omega
+    have hget := bProps_flds_getElem c _ false 1 _ herr 1 (by simp [stateObject, ObjDecl.props])
+    simp only [declMsgOf, declMsg, mkMsg, MsgSkel.fields, stateObject, ObjDecl.name, ObjDecl.props] at hf hget
+    rw [hget] at hf
+    have := flattenRef_fld c _ false _ _ _ f (by simpa using hf)
+    simpa [hk] using this
+  · intro h f hf
+    have herr : (bProps c ([] ++ [componentName e b!"Event"]) false 1 ([] ++ (eventObject e).props)).eff.errs = 0 := by
+      have := h
+      simp only [eventObject] at this
+      rw [convDecl_errs] at this
+      simp only [eventObject, ObjDecl.props]
+      omega
+    have hget := bProps_flds_getElem c _ false 1 _ herr 1 (by simp [eventObject, ObjDecl.props])
+    simp only [declMsgOf, declMsg, mkMsg, MsgSkel.fields, eventObject, ObjDecl.name, ObjDecl.props] at hf hget
+    rw [hget] at hf
+    have := flattenRef_fld c _ false _ _ _ f (by simpa using hf)
+    simpa [hk] using this
+
+/-! ## Zero events (open finding) -/
+
+/-- what the consumers of the compiled entity need beyond the compiler's own output: the event oneof
+has at least one member (`protodesc.NewFiles`, hence `structure.APIFromImage` / `j5client`, reject a
+oneof without fields) -/
+def EventOneofInhabited (e : Entity) : Prop := (eventOneof e).props ≠ []
+
+theorem C17_event_oneof_inhabited_iff (e : Entity) : EventOneofInhabited e ↔ e.events ≠ [] := by
+  simp [EventOneofInhabited, eventOneof, ObjDecl.props]
+
+/-- the witness of the open finding `c17-client-api:entity-without-events`:
+`entity Foo { key fooId key:id62 { primary = true } status A }` -/
+def exNoEvents : Entity :=
+  { name := b!"Foo", baseUrl := [],
+    keys := [ { prop := .mk b!"fooId" false false (.key .id62 (.ek (.primary true) none) [] false), shard := false } ],
+    data := [], statuses := [b!"A"], events := [], commands := [], summaries := [], query := none, nested := [] }
+def bunNoEvents : Bundle :=
+  { pkgs := [{ name := b!"foo.v1", files := [.j5s b!"foo/v1/e.j5s" [] [.entity exNoEvents] b!"foo.v1"] }] }
+
+set_option maxRecDepth 8192 in
+/-- **Zero events: the compiler's output is as stated, the client-side clause fails.** The quantifier
+of the property allows 0 events, `ValidEntity` holds for such an entity and every theorem of this file
+applies to it: the model — like `CompilePackage` — compiles AND links it (`compileLinked`; the link
+model, like protocompile, has no "oneof needs a member" arm). Its EventType message is a oneof with
+NO field, which `protodesc.NewFiles` rejects, so the clause "the client API StateEntity derived from
+them" (oracle only, anchors `package_from_source.go`) fails on the real code: recorded as the open
+finding `c17-client-api:entity-without-events` with this very witness. `EventOneofInhabited e ↔
+e.events ≠ []` is the decidable predicate that excludes exactly the recorded class. -/
+theorem C17_zero_events_counterexample :
+    ValidEntity exNoEvents ∧ (compilePkg bunNoEvents b!"foo.v1").isOk = true ∧
+    (compileLinked bunNoEvents b!"foo.v1").isOk = true ∧ ¬ EventOneofInhabited exNoEvents ∧
+    (∀ c, (declMsgOf c [] true [] (eventOneof exNoEvents)).fields = [] ∧
+      (declMsgOf c [] true [] (eventOneof exNoEvents)).kind = .oneof) := by
+  refine ⟨⟨by decide, by decide⟩, by decide, by decide, ?_, ?_⟩
+  · rw [C17_event_oneof_inhabited_iff]; simp [exNoEvents]
+  · intro c
+    exact ⟨rfl, rfl⟩
 
 /-! ## Non-vacuity -/
 
